@@ -32,20 +32,29 @@
 (* number is a float (parser_test.go relies on 38f), timestamps are        *)
 (* 0 .. 2^63-2 after scaling by the precision.                             *)
 (*                                                                         *)
-(* Three kinds of deviation names (parameter dv of every rule):            *)
+(* Deviation names (parameter dv of every rule):                           *)
 (*  mutation seeds   accept_no_field, unescape_drops_backslash,            *)
 (*                   reject_recovers, bool_T_false                         *)
-(*  as-implemented   empty_tag_skipped, tagval_equals_literal,             *)
-(*   (structure)     fsuffix_unvalidated, quote_scan                       *)
-(*  as-implemented   int_via_float64, float_fastfloat, ts_mult_wraps       *)
-(*   (value level: the decoded value is marked `via`, the replay side      *)
-(*    applies the arithmetic of the deviation model)                       *)
-(*  as-implemented   batch_last_line_decides (operators BatchStatus ..)    *)
-(*   (batch level)                                                         *)
-(* The design automaton d runs with Dev ({} = the documented grammar); the *)
-(* automata m[D] run with Dev \cup D for D a single as-implemented         *)
-(* deviation or all of them: their outcomes are the predictions of the     *)
-(* deviation models of known_findings.json (F-C06-1..7).                   *)
+(*  as-implemented = the code as it is, models of OPEN findings (ImplDev): *)
+(*   structure       empty_tag_skipped, tagval_equals_literal (F-C06-7),   *)
+(*                   quote_scan_key (F-C06-8)                              *)
+(*   value level     int_via_float64 (F-C06-1): the decoded value is       *)
+(*                   marked `via`, the replay side applies the arithmetic  *)
+(*   batch level     batch_last_line_decides (F-C06-6; BatchStatus ..)     *)
+(*  models of REPAIRED defects (FixedDev), the code as it was before the   *)
+(*  fix: commits; kept as mutation seeds and as regression predictions:    *)
+(*   structure       fsuffix_unvalidated (F-C06-4), quote_scan (F-C06-5:   *)
+(*                   quote_scan_key + the old parseFieldStrValue)          *)
+(*   value level     float_fastfloat (F-C06-2), ts_mult_wraps (F-C06-3)    *)
+(* The design automaton d runs with Dev ({} = the documented grammar).     *)
+(* The prediction automata m[D] run with Dev \cup D:                       *)
+(*   D = {x}, x \in ImplDev, and D = ImplDev: the as-implemented automaton;*)
+(*       a divergence of the real code equal to one of these outcomes is   *)
+(*       attributed to the open finding(s) of known_findings.json;         *)
+(*   D = ImplDev \cup {x}, x \in FixedDev: what the code would do again if *)
+(*       the fix of x were lost; a divergence equal to one of these (and   *)
+(*       to no as-implemented outcome) is a REGRESSION and is reported as  *)
+(*       a violation naming the repaired finding.                          *)
 (***************************************************************************)
 EXTENDS Integers, Sequences, FiniteSets, TLC
 
@@ -60,7 +69,8 @@ CONSTANTS Chars,       \* character classes offered
           MaxTags, MaxFields,
           TailLen,     \* classes consumed after the design automaton rejected
           Dev,         \* deviations of the design automaton ({} = the design)
-          ImplDev      \* as-implemented deviations (prediction automata)
+          ImplDev,     \* as-implemented deviations = models of the open findings (prediction automata)
+          FixedDev     \* models of repaired defects (regression prediction automata)
 
 VARIABLES line,   \* sequence of consumed classes
           prec,   \* precision given with the timestamp token
@@ -200,11 +210,20 @@ StepFieldValEndD(a, c, i, dv) ==
   ELSE Rej(a, "garbage after field value")
 
 -----------------------------------------------------------------------------
-\* field section as implemented (deviation quote_scan, F-C06-5): parser.go finds the end of the field
-\* section and of every field with nextUnquotedChar, i.e. by the PARITY of the unescaped quotes seen so
-\* far (field keys included), takes the key up to the first unescaped "=", and if the rest holds an
-\* unescaped quote hands it to parseFieldStrValue, which returns "" for a text that does not START with
-\* a quote and otherwise only checks that the LAST byte is a quote.
+\* field section as implemented. parser.go finds the end of the field section and of every field with
+\* nextUnquotedChar, i.e. by the PARITY of the unescaped quotes seen so far (field keys included), takes
+\* the key up to the first unescaped "=", and if the rest holds an unescaped quote hands it to
+\* parseFieldStrValue, else to parseFieldNumValue.
+\*  quote_scan_key (F-C06-8, the code as it is since fix 3a54b7c): parseFieldStrValue accepts exactly a
+\*    text that starts with an unescaped quote, ends with an unescaped quote and has no unescaped quote
+\*    in between; every other text holding an unescaped quote is rejected. What is left of the parity
+\*    scan is visible in field KEYS only: a separator that follows an odd number of quotes is swallowed
+\*    into the key (or into a value, which then is no number and no string: rejected).
+\*  quote_scan (F-C06-5, the code before 3a54b7c): the same scan, but parseFieldStrValue returns "" for a
+\*    text that does not START with a quote and otherwise only checks that the LAST byte is a quote.
+QScan(dv) == "quote_scan" \in dv \/ "quote_scan_key" \in dv
+OldStr(dv) == "quote_scan" \in dv           \* parseFieldStrValue before 3a54b7c
+QName(dv) == IF "quote_scan" \in dv THEN "quote_scan" ELSE "quote_scan_key"
 StepFieldKeyI(a, c, i, dv) ==
   IF a.esc THEN Lit(a, c, i, dv)
   ELSE IF c = "B" THEN [a EXCEPT !.esc = TRUE]
@@ -213,7 +232,7 @@ StepFieldKeyI(a, c, i, dv) ==
     IF a.cur = <<>> THEN Rej(a, "empty field key")
     ELSE Str([a EXCEPT !.key = a.cur, !.cur = <<>>, !.st = "IVal", !.vq = FALSE, !.vsq = FALSE, !.vlq = FALSE,
                        !.vle = FALSE, !.vn = 0, !.vnq = 0, !.vtok = ""], i)
-  ELSE IF c \in {"C", "S"} /\ a.inq THEN [a EXCEPT !.cur = Append(@, i), !.used = @ \cup {"quote_scan"}]
+  ELSE IF c \in {"C", "S"} /\ a.inq THEN [a EXCEPT !.cur = Append(@, i), !.used = @ \cup {QName(dv)}]
   ELSE IF c = "S" /\ a.cur = <<>> /\ a.fields = <<>> THEN Str(a, i)
   ELSE IF c \in {"C", "S"} THEN Rej(a, "field without value")
   ELSE [a EXCEPT !.cur = Append(@, i)]
@@ -222,12 +241,16 @@ ButLast(s) == SubSeq(s, 1, Len(s) - 1)
 
 \* texts that end in the letter f
 EndsInF == {"B_f", "N_JUNKF", "F_FSUFFIX"}
+\* tokens whose text is a number without suffix: with an "f" behind it the text is an f-suffix float
+NumberTexts == FloatOK \ {"F_FSUFFIX"}
 
 CommitI(a, h, e, dv) ==
   IF a.vn = 0 THEN Rej(a, "empty value")
   ELSE IF a.vq THEN
     IF a.vsq THEN
-      IF a.vn >= 2 /\ a.vlq /\ ~a.esc THEN
+      \* first byte a quote, last byte a quote; since 3a54b7c also: the last quote is not escaped and is
+      \* the second unescaped quote of the text
+      IF a.vn >= 2 /\ a.vlq /\ ~a.esc /\ (OldStr(dv) \/ (a.vnq = 2 /\ ~a.vle)) THEN
         LET inner == Tail(a.cur)
             last  == inner[Len(inner)]
             body  == IF a.vle THEN Append(ButLast(inner), last - 1) ELSE ButLast(inner)
@@ -235,8 +258,10 @@ CommitI(a, h, e, dv) ==
                      !.cur = <<>>, !.key = <<>>,
                      !.used = IF a.vnq # 2 \/ a.vle THEN @ \cup {"quote_scan"} ELSE @]
       ELSE Rej(a, "missing closing quote")
-    ELSE [a EXCEPT !.fields = Append(@, [k |-> a.key, t |-> "string", tok |-> "", s |-> <<>>, via |-> "qscan", val |-> "", e |-> e]),
+    ELSE IF OldStr(dv) THEN
+         [a EXCEPT !.fields = Append(@, [k |-> a.key, t |-> "string", tok |-> "", s |-> <<>>, via |-> "qscan", val |-> "", e |-> e]),
                    !.cur = <<>>, !.key = <<>>, !.used = @ \cup {"quote_scan"}]
+    ELSE Rej(a, "value with a quote that is not a quoted string")
   ELSE IF a.vn = 1 /\ a.vtok # "" /\ TokType(a.vtok, dv) # "reject" THEN
     [a EXCEPT !.fields = Append(@, TokField(a, a.vtok, dv, e)), !.cur = <<>>, !.key = <<>>,
               !.used = IF a.vtok = "N_JUNKF" THEN @ \cup {"fsuffix_unvalidated"} ELSE @]
@@ -245,6 +270,10 @@ CommitI(a, h, e, dv) ==
     \* in front of that f goes through ParseBestEffort unvalidated (fsuffix_unvalidated)
     [a EXCEPT !.fields = Append(@, [k |-> a.key, t |-> "float", tok |-> "", s |-> <<>>, via |-> "ffjunk", val |-> "", e |-> e]),
               !.cur = <<>>, !.key = <<>>, !.used = @ \cup {"fsuffix_unvalidated"}]
+  ELSE IF a.vn = 2 /\ a.vtok # "" THEN
+    \* a number token followed by the text "f" (StepIVal keeps vtok for exactly this pair): together they are
+    \* the f-suffix spelling of that number. Tokens are adjacent only after the design automaton rejected.
+    [a EXCEPT !.fields = Append(@, TokField(a, a.vtok, dv, e)), !.cur = <<>>, !.key = <<>>]
   ELSE Rej(a, "invalid field value")
 
 StepIVal(a, h, c, i, dv) ==
@@ -258,9 +287,10 @@ StepIVal(a, h, c, i, dv) ==
   ELSE IF c = "Q" THEN [a EXCEPT !.cur = Append(@, i), !.inq = ~a.inq, !.vq = TRUE, !.vsq = (IF a.vn = 0 THEN TRUE ELSE a.vsq),
                                  !.vn = @ + 1, !.vnq = @ + 1, !.vlq = TRUE, !.vle = FALSE, !.vtok = ""]
   ELSE [a EXCEPT !.cur = Append(@, i), !.vn = @ + 1, !.vlq = FALSE, !.vle = FALSE,
-                 !.vtok = IF a.vn = 0 /\ c \in AllValToks THEN c ELSE "",
+                 !.vtok = IF a.vn = 0 /\ c \in AllValToks THEN c
+                          ELSE IF a.vn = 1 /\ c = "B_f" /\ a.vtok \in NumberTexts THEN a.vtok ELSE "",
                  \* a separator swallowed by the quote parity although the value is not a string
-                 !.used = IF c \in {"C", "S"} /\ a.inq /\ ~a.vsq THEN @ \cup {"quote_scan"} ELSE @]
+                 !.used = IF c \in {"C", "S"} /\ a.inq /\ ~a.vsq THEN @ \cup {QName(dv)} ELSE @]
 
 -----------------------------------------------------------------------------
 StepTimestamp(a, c, p, i, dv) ==
@@ -280,7 +310,7 @@ Step(a, h, c, p, i, dv) ==
   ELSE IF a.st = "Mst" THEN StepMst(a, h, c, i, dv)
   ELSE IF a.st = "TagKey" THEN StepTagKey(a, c, i, dv)
   ELSE IF a.st = "TagVal" THEN StepTagVal(a, c, i, dv)
-  ELSE IF a.st = "FieldKey" THEN (IF "quote_scan" \in dv THEN StepFieldKeyI(a, c, i, dv) ELSE StepFieldKeyD(a, c, i, dv))
+  ELSE IF a.st = "FieldKey" THEN (IF QScan(dv) THEN StepFieldKeyI(a, c, i, dv) ELSE StepFieldKeyD(a, c, i, dv))
   ELSE IF a.st = "FieldVal" THEN StepFieldValD(a, c, i, dv)
   ELSE IF a.st = "FieldValStr" THEN StepFieldValStrD(a, c, i, dv)
   ELSE IF a.st = "FieldValEnd" THEN StepFieldValEndD(a, c, i, dv)
@@ -309,6 +339,7 @@ Finish(a0, h, dv) ==
 
 -----------------------------------------------------------------------------
 DevSets == {{x} : x \in ImplDev} \cup (IF ImplDev = {} THEN {} ELSE {ImplDev})
+           \cup {ImplDev \cup {x} : x \in FixedDev}
 
 Init == /\ line = <<>> /\ prec = "" /\ d = A0 /\ m = [D \in DevSets |-> A0] /\ done = FALSE
 
@@ -402,6 +433,10 @@ ValueFaithful ==
         /\ (f.t = "string" => f.tok = "")
         /\ f.via = ""
 
+\* an accepted timestamp is in range after scaling by the precision, never a wrapped product
+TimestampFaithful ==
+  d.st = "Accept" => d.tsvia = "" /\ (d.ts = "TS_MISSING" \/ TsKind(d.ts, prec, {}) = "ok")
+
 \* Reject is absorbing (action property)
 RejectAbsorbing == [][d.st = "Reject" => d'.st = "Reject"]_vars
 
@@ -409,7 +444,7 @@ RejectAbsorbing == [][d.st = "Reject" => d'.st = "Reject"]_vars
 \* without ambiguity: they only concern invalid input
 Out(a) == IF a.st = "Accept" THEN [kind |-> "Accept", mst |-> a.mst, tags |-> a.tags, fields |-> a.fields, ts |-> a.ts, tsvia |-> a.tsvia]
           ELSE [kind |-> "Reject"]
-StructDevs == {"empty_tag_skipped", "tagval_equals_literal", "fsuffix_unvalidated", "quote_scan"}
+StructDevs == {"empty_tag_skipped", "tagval_equals_literal", "fsuffix_unvalidated", "quote_scan", "quote_scan_key"}
 DevOnlyOnInvalid ==
   (done /\ d.st = "Accept" /\ d.amb = {}) =>
      \A D \in DevSets : (D \subseteq StructDevs) => Out(m[D]) = Out(d)
